@@ -19,6 +19,13 @@ PID = "C12"
 DRIVER = "driver_c12"
 HARNESS = "h_project"
 PROBE_SRC = os.path.join("harness", "c12_probe_tptr_sliced.cpp")
+# compile-time probes: name -> (source, harness macro, driver flag)
+PROBES = {
+    "tptr_sliced": (os.path.join("harness", "c12_probe_tptr_sliced.cpp"), "C12_TPTR_SLICED", "--tptr-sliced"),
+    "tptr_const_iter": (os.path.join("harness", "c12_probe_tptr_const_iter.cpp"), "C12_TPTR_CONST_ITER", "--tptr-citer"),
+    "expl_from_view": (os.path.join("harness", "c12_probe_explicit_from_view.cpp"), "C12_EXPL_FROM_VIEW", "--expl-view"),
+}
+N_HEAVY_TYPES = 11      # C12_HEAVY_TYPES of harness/common/c12_projview.hpp
 
 
 # --------------------------------------------------------------------------------------------
@@ -34,12 +41,18 @@ def ensure_driver():
     return core.ensure_driver_for("c12", "ExtractC12.v", ["c12_zu.ml", "c12_driver.ml"], DRIVER, model_base="modelc12")
 
 
-def generate(seed, count, tptr_sliced, prefix="p", extra=()):
+def flag_args(flags):
+    out = []
+    for name, (_src, _macro, opt) in PROBES.items():
+        out += [opt, "1" if flags.get(name) else "0"]
+    return out
+
+
+def generate(seed, count, flags, prefix="p", extra=()):
     d = workdir()
     prog, obs = os.path.join(d, "prog_%s.txt" % prefix), os.path.join(d, "obs_%s.txt" % prefix)
     rc, out, err = core.sh([os.path.join(core.BIN, DRIVER), "gen", "--seed", str(seed), "--count", str(count),
-                            "--prog", prog, "--obs", obs, "--prefix", prefix,
-                            "--tptr-sliced", "1" if tptr_sliced else "0"] + list(extra), timeout=900)
+                            "--prog", prog, "--obs", obs, "--prefix", prefix] + flag_args(flags) + list(extra), timeout=900)
     if rc != 0:
         raise RuntimeError("driver_c12 gen failed: " + err[-2000:])
     try:
@@ -49,14 +62,13 @@ def generate(seed, count, tptr_sliced, prefix="p", extra=()):
     return open(prog).read(), open(obs).read(), dist
 
 
-def model_run(prog_text, tptr_sliced):
+def model_run(prog_text, flags):
     d = workdir()
     fd, p = tempfile.mkstemp(dir=d, suffix=".prog")
     os.write(fd, prog_text.encode())
     os.close(fd)
     o = p + ".obs"
-    rc, out, err = core.sh([os.path.join(core.BIN, DRIVER), "run", "--prog", p, "--obs", o,
-                            "--tptr-sliced", "1" if tptr_sliced else "0"], timeout=300)
+    rc, out, err = core.sh([os.path.join(core.BIN, DRIVER), "run", "--prog", p, "--obs", o] + flag_args(flags), timeout=300)
     txt = open(o).read() if os.path.exists(o) else ""
     for f in (p, o):
         try:
@@ -91,6 +103,8 @@ def pristine_word(elem, kw, epoch):
 
 
 P_RE = re.compile(r"^P (\S+) (\d+) idx=(\S*) O=(-?\d+|-) V=(\S+)$")
+I_MOVE_RE = re.compile(r"^I (\S+) (\d+) (\S+) (\S+) pos=(-?\d+) end=(-?\d+) p=(-?\d+)(?: d=(\S+) m=(\S+))?$")
+I_OBS_RE = re.compile(r"^I (\S+) (\d+) (\S+) (\S+) at=(-?\d+) d=(\S+) m=(\S+)$")
 S_RE = re.compile(r"^S (\S+) (\d+) elem=(\S) esz=(\d+) rank=(\d+) sizes=(\S*) ")
 
 
@@ -131,6 +145,20 @@ def monitors(prog_text, impl_text):
             if cid in info and not (0 <= kw < 4 * info[cid][1]):
                 bad.append((cid, "write-outside-root", line))
             continue
+        if line.startswith("I "):
+            # iterator walks: the position the library reports (it - begin) is the one plain arithmetic on the
+            # tokens gives, and what the iterator designates (d) is what indexing designates (m)
+            m = I_MOVE_RE.match(line)
+            if m:
+                if m.group(5) != m.group(7):
+                    bad.append((m.group(1), "iterator-position-is-not-the-arithmetic-position", line))
+                elif m.group(8) is not None and m.group(8) != m.group(9):
+                    bad.append((m.group(1), "iterator-designates-another-element-than-indexing", line))
+                continue
+            m = I_OBS_RE.match(line)
+            if m and m.group(6) != m.group(7):
+                bad.append((m.group(1), "iterator-designates-another-element-than-indexing", line))
+            continue
         m = P_RE.match(line)
         if not m:
             continue
@@ -159,8 +187,8 @@ def impl_run(exe, prog_text):
     return core.run_harness(exe, prog_text, shards=1, timeout=120)
 
 
-def case_fails(exe, block, tptr_sliced):
-    mtxt = model_run(block, tptr_sliced)
+def case_fails(exe, block, flags):
+    mtxt = model_run(block, flags)
     if re.search(r"^X ", mtxt, re.M):
         return None  # the shrunk program left the documented domain: not a candidate
     itxt, crashes = impl_run(exe, block)
@@ -176,7 +204,7 @@ def case_fails(exe, block, tptr_sliced):
     return False
 
 
-def shrink(exe, block, tptr_sliced, budget=50):
+def shrink(exe, block, flags, budget=50):
     """Greedy delta debugging: drop step groups (an op/proj/mutate/write/convert line with the probes that
     follow it), then the probes of the remaining groups."""
     lines = block.strip().splitlines()
@@ -199,7 +227,7 @@ def shrink(exe, block, tptr_sliced, budget=50):
         for k in range(len(best) - 1, 0, -1):
             cand = best[:k] + best[k + 1:]
             tries += 1
-            if case_fails(exe, assemble(cand), tptr_sliced):
+            if case_fails(exe, assemble(cand), flags):
                 best, changed = cand, True
                 break
             if tries >= budget:
@@ -214,14 +242,14 @@ def shrink(exe, block, tptr_sliced, budget=50):
             continue
         tries += 1
         cand = best[:k] + [keep] + best[k + 1:]
-        if case_fails(exe, assemble(cand), tptr_sliced):
+        if case_fails(exe, assemble(cand), flags):
             best = cand
             continue
         # keep a single probe if one suffices
         for pl in probes:
             tries += 1
             cand = best[:k] + [keep + [pl]] + best[k + 1:]
-            if case_fails(exe, assemble(cand), tptr_sliced):
+            if case_fails(exe, assemble(cand), flags):
                 best = cand
                 break
             if tries >= budget + 25:
@@ -257,6 +285,80 @@ def value_category_table(prog_text, obs_text):
             key = "%s %s" % (names[cat], cls)
             row[key] = row.get(key, 0) + 1
     return {k: dict(sorted(v.items())) for k, v in sorted(table.items())}
+
+
+# Which constructor / assignment of array.hpp a conversion kind reaches (source form + value category, how,
+# convertibility class of the target).  Line numbers of /repo/include/boost/multi/array.hpp at the pinned commit; the
+# map was verified with an instrumented copy of array.hpp (notes/c12_overload_coverage.py prints, per kind, the
+# sequence of instrumented functions entered).  cls: "same" (same element type), "impl", "expl".
+def overload_of(kind, cls):
+    src, cat, how, tgt = kind[0], kind[1], kind.split(".")[1], kind.split(".")[2]
+    impl = cls != "expl"
+    view_ctor = ("explicit static_array(const_subarray<TT> const&) :407 -> (.., alloc) :374" if not impl else
+                 ("static_array(subarray<T,D,element_ptr>&&) :434 -> (.., alloc) :393" if (cls == "same" and src == "v") else
+                  "implicit static_array(subarray<TT>&&) :425 -> (.., alloc) :393") if cat in "rt" and src == "v" else
+                 ("static_array(subarray<T,D,element_ptr> const&&) :428 -> (.., alloc) :374" if (cls == "same" and src == "v" and cat == "k") else
+                  ("static_array(const_subarray<T,D,element_ptr> const&&) :431 -> (.., alloc) :374" if (cls == "same" and src == "q" and cat in "rtk") else
+                   "implicit static_array(const_subarray<TT> const&) :416 -> (.., alloc) :374")))
+    if src == "e":
+        return ["static_array(Range const&) :279 -> (It, It) :271 -> (It, It, alloc) :251"]
+    if src == "x":
+        return {"carr": ["explicit static_array(TT (&)[N]) :527 -> (It, It) :271"],
+                "ilist": ["array(std::initializer_list<value_type>) :1216"],
+                "zctor": ["rank 0: explicit static_array(static_array<TT,0> const&) :864 -> (.., alloc) :851"],
+                "zalloc": ["rank 0: explicit static_array(static_array<TT,0> const&, alloc) :851"],
+                "zasg": ["rank 0: array::operator=(array<TT,0> const&) & :1112 -> static_array::operator=(static_array<TT,0> const&) :1085"],
+                "zelem": ["rank 0: static_array::operator=(Singleton const&) :764"]}[how]
+    if src == "i":
+        return {"ctor": ["static_array(It, It) :271 -> (It, It, alloc) :251"], "alloc": ["static_array(It, It, alloc) :251"],
+                "asit": ["array::assign(It, It) :1442 [same extensions: ref::assign]"],
+                "adiff": ["array::assign(It, It) :1442 [else: = array(first, last)]", "static_array(It, It) :271 -> (It, It, alloc) :251"]}[how]
+    if how == "ssame":
+        return ["static_array::operator=(const_subarray<TT> const&) :670" if src in "vqr" else "static_array::operator=(static_array<TT> const&) :703"]
+    if how in ("asame", "aresh", "adiff"):
+        if src == "a":
+            return ["array::operator=(array<TT> const&) :1370 [same extensions, or same num_elements + reshape: static_array::operator= :703; "
+                    "else static_cast<array>(other): static_array(array_ref<TT> const&) :473 / explicit :481]"]
+        if src == "r":
+            return ["array::operator=(const_subarray<OtherT> const&) :1360 [same extensions: static_array::operator= :670; else array{other}: "
+                    "(const_subarray<TT> const&) :416 / explicit :407]"]
+        return ["array::operator=(Range&&) :1391 [same extensions / same num_elements + reshape: subarray assignment; else "
+                "static_cast<array>(other): the view constructors :407/:416/:425/:434]"]
+    if how == "from":
+        return ["array::from(Range&&) :1411"]
+    if how == "asrg":
+        return ["array::assign(Range&&) :1464 -> assign(It, It) :1442"]
+    if how == "alloc":
+        if src in "ar":
+            return ["static_array(array_ref<TT> const&, alloc) :288"]
+        return ["static_array(subarray<OtherT>&&, alloc) :393" if (cat in "rt" and src == "v") else "static_array(const_subarray<OtherT> const&, alloc) :374"]
+    if src in "ar":
+        form = {"l": "&", "c": " const&", "r": "&&", "t": "&&"}[cat]
+        line = {("l", True): 440, ("l", False): 447, ("r", True): 456, ("r", False): 464, ("t", True): 456, ("t", False): 464,
+                ("c", True): 473, ("c", False): 481}[(cat, impl)]
+        return ["%s static_array(array_ref<TT>%s) :%d" % ("implicit" if impl else "explicit", form, line)]
+    return [view_ctor]
+
+
+def conversion_tables(dist):
+    """From the generator's tags conv:<kind>:<source element code>:<b|z> (b = the source view has a non-zero index
+    base): conversion kind -> count, and overload of array.hpp -> {total, on sources with a non-zero base, kinds}."""
+    kinds, overloads = {}, {}
+    for key in [k for k in dist if k.startswith("conv:")]:
+        n = dist.pop(key)
+        _c, kind, code, nzb = key.split(":")
+        kinds[kind] = kinds.get(kind, 0) + n
+        tgt = kind.split(".")[2]
+        cls = "same" if (tgt == "same" or (tgt == "nat" and code in "SCRQ")) else \
+              ("impl" if (tgt == "wi" or (tgt == "nat" and code != "Z")) else "expl")
+        for name in overload_of(kind, cls):
+            o = overloads.setdefault(name, {"cases": 0, "with_nonzero_index_base": 0, "kinds": set()})
+            o["cases"] += n
+            o["with_nonzero_index_base"] += n if nzb == "b" else 0
+            o["kinds"].add(kind)
+    for o in overloads.values():
+        o["kinds"] = " ".join(sorted(o["kinds"]))
+    return dict(sorted(kinds.items())), dict(sorted(overloads.items()))
 
 
 def distinct_nontrivial(prog_text):
@@ -306,6 +408,12 @@ def _coq_op(toks):
         return "(%s %s)" % (unary[k], _z(a[0]))
     if k == "sliced":
         return "(OSliced %s %s)" % (_z(a[0]), _z(a[1]))
+    if k == "reindexed":
+        return "(OReindexed %s)" % _z(a[0])
+    if k == "blocked":
+        return "(OBlocked %s %s)" % (_z(a[0]), _z(a[1]))
+    if k == "reindexedl":
+        return "(OReindexedL [%s])" % "; ".join(_z(x) for x in a)
     if k == "sliceds":
         return "(OSlicedS %s %s %s)" % (_z(a[0]), _z(a[1]), _z(a[2]))
     if k == "paren":
@@ -384,43 +492,91 @@ def vm_crosscheck(prog_text, obs_text, limit=200):
     rc, out, err = core.sh(["coqc", "-Q", core.COQ, "BM", src], cwd=d, timeout=900)
     if rc != 0:
         return len(ids), ["<coqc failed>"], (out + err)[-2000:]
-    flags = re.findall(r"\b(true|false)\b", out.split("= [", 1)[1] if "= [" in out else "")
-    bad = [ids[k] for k, fl in enumerate(flags) if fl == "false"]
-    if len(flags) != len(ids):
-        bad.append("<%d answers for %d cases>" % (len(flags), len(ids)))
+    answers = re.findall(r"\b(true|false)\b", out.split("= [", 1)[1] if "= [" in out else "")
+    bad = [ids[k] for k, fl in enumerate(answers) if fl == "false"]
+    if len(answers) != len(ids):
+        bad.append("<%d answers for %d cases>" % (len(answers), len(ids)))
     return len(ids), bad, out[-500:]
 
 
 # --------------------------------------------------------------------------------------------
 # build: compile-time probe + harness
 # --------------------------------------------------------------------------------------------
-def probe_tptr_sliced():
-    """Does `A.element_transformed(f).sliced(a, b)` compile for rank >= 2 with assertions enabled?
-    (array_ref.hpp sliced_aux_: `BOOST_MULTI_ASSERT(this->base_ || ...)` needs a conversion to bool.)"""
-    src = os.path.join(core.VERIF, PROBE_SRC)
+def run_probe(name):
+    """Does harness/c12_probe_<...>.cpp compile (syntax only, assertions enabled)?  Returns (ok, compiler log)."""
+    src = os.path.join(core.VERIF, PROBES[name][0])
     rc, out, err = core.sh(["g++", "-std=c++17", "-fsyntax-only", "-I" + core.INCLUDE, src], timeout=300)
     return rc == 0, (out + err)[-3000:]
+
+
+# structured records of what a failing probe means (matched against known_findings.json)
+PROBE_RECORDS = {
+    "tptr_sliced": ({"found_by": "compile-probe", "operation": "sliced", "view": "element_transformed", "rank": ">=2",
+                     "site": "array_ref.hpp:sliced_aux_:null-base-assertion", "build": "assertions-enabled"},
+                    "element_transformed(f).sliced(a,b) of a rank-2 view does not compile with assertions enabled"),
+    "tptr_const_iter": ({"found_by": "compile-probe", "operation": "begin", "view": "element_transformed", "rank": "1",
+                         "constness": "const", "site": "array_ref.hpp:const_subarray<T,1>::begin()const&:iterator-to-const_iterator"},
+                        "begin()/end() of a const rank-1 element_transformed view (and of the rows of a const rank-2 one) do not compile"),
+    "expl_from_view": ({"found_by": "compile-probe", "operation": "converting-constructor", "source": "view",
+                        "element": "explicit-only", "site": "array.hpp:static_array(const_subarray const&,alloc):is_assignable-constraint"},
+                       "array<T2,D>(view) does not compile when T2 is only explicitly constructible from the view's element type"),
+}
+
+
+def build_c12_harness(flags, extra=(), tag="", timeout=1500):
+    """h_project = h_project.cpp + 2 x N_HEAVY_TYPES explicit-instantiation parts (c12_heavy_part.cpp), compiled in
+    parallel and linked; cached by the hash of the include tree, the harness sources and the flags."""
+    macros = ["-D%s=%d" % (PROBES[n][1], 1 if flags.get(n) else 0) for n in sorted(PROBES)]
+    srcs = [os.path.join(core.VERIF, "harness", f) for f in ("h_project.cpp", "c12_heavy_part.cpp")]
+    common = [os.path.join(core.VERIF, "harness", "common", f) for f in ("c12_projview.hpp", "c12_heavy.hpp", "dynview.hpp")]
+    key = hashlib.sha256((core.include_hash() + core.tree_hash(srcs + common) + " ".join(macros) + " ".join(extra)).encode()).hexdigest()[:16]
+    exe = os.path.join(core.BIN, "%s%s-%s" % (HARNESS, tag, key))
+    if os.path.exists(exe):
+        return True, exe, "cached"
+    os.makedirs(core.BIN, exist_ok=True)
+    for f in os.listdir(core.BIN):
+        if f.startswith(HARNESS + tag + "-"):
+            try:
+                os.remove(os.path.join(core.BIN, f))
+            except OSError:
+                pass
+    objdir = os.path.join(core.BUILD, "work", PID, "obj" + tag)
+    os.makedirs(objdir, exist_ok=True)
+    base = ["g++", "-std=c++17", "-O1", "-g0", "-I" + core.INCLUDE, "-I" + os.path.join(core.VERIF, "harness")] + macros + list(extra)
+    jobs = [(base + ["-c", srcs[0], "-o", os.path.join(objdir, "main.o")], os.path.join(objdir, "main.o"))]
+    for t in range(N_HEAVY_TYPES):
+        for fn in (0, 1):
+            o = os.path.join(objdir, "part_%d_%d.o" % (t, fn))
+            jobs.append((base + ["-DC12_PART_TYPE=%d" % t, "-DC12_PART_FN=%d" % fn, "-c", srcs[1], "-o", o], o))
+    logs = []
+    with cf.ThreadPoolExecutor(max_workers=core.NCPU) as ex:
+        for (cmd, _o), (rc, out, err) in zip(jobs, ex.map(lambda j: core.sh(j[0], timeout=timeout), jobs)):
+            if rc != 0:
+                logs.append(" ".join(cmd[-6:]) + "\n" + (out + err)[-3000:])
+    if logs:
+        return False, exe, "\n".join(logs)[-6000:]
+    rc, out, err = core.sh(["g++"] + list(extra) + [o for _c, o in jobs] + ["-o", exe], timeout=timeout)
+    if rc != 0:
+        return False, exe, (out + err)[-6000:]
+    return True, exe, "built"
 
 
 def prepare(res, tier="quick"):
     coq = core.coq_check_property(PID)
     core.proof_coverage(res, coq)
     problems = []
-    with cf.ThreadPoolExecutor(max_workers=3) as ex:
+    with cf.ThreadPoolExecutor(max_workers=6) as ex:
         f_drv = ex.submit(ensure_driver)
-        f_probe = ex.submit(probe_tptr_sliced)
-        ok_p, log_p = f_probe.result()
-        # the harness is built for what the library offers; the probe result is reported separately
-        f_h = ex.submit(core.build_harness, HARNESS, ["h_project.cpp"], ("-DC12_TPTR_SLICED=%d" % (1 if ok_p else 0),))
-        f_a = None
-        if tier == "thorough":   # the same harness under ASan + UBSan (no access outside the root, no misaligned access)
-            f_a = ex.submit(core.build_harness, HARNESS, ["h_project.cpp"],
-                            ("-DC12_TPTR_SLICED=%d" % (1 if ok_p else 0), "-fsanitize=address,undefined",
-                             "-fno-sanitize-recover=all", "-fno-omit-frame-pointer"), (), "g++", 1500, "-asan")
+        f_probes = {n: ex.submit(run_probe, n) for n in PROBES}
+        probes = {n: f.result() for n, f in f_probes.items()}
+        flags = {n: ok for n, (ok, _log) in probes.items()}
+        # the harness is built for what the library offers; the probe results are reported separately
+        f_h = ex.submit(build_c12_harness, flags)
         ok_d, log_d = f_drv.result()
         ok_h, exe, log_h = f_h.result()
-        if f_a is not None:
-            ok_a, exe_a, log_a = f_a.result()
+        if tier == "thorough":   # the same harness under ASan + UBSan (no access outside the root, no misaligned access)
+            ok_a, exe_a, log_a = build_c12_harness(flags, ("-fsanitize=address,undefined", "-fno-sanitize-recover=all",
+                                                           "-fno-omit-frame-pointer"), "-asan")
             if ok_a:
                 res.coverage["sanitizer_harness"] = os.path.basename(exe_a)
                 prepare.asan_exe = exe_a
@@ -435,27 +591,28 @@ def prepare(res, tier="quick"):
             path = core.write_replay(PID, "", {"property": PID, "found-by": step, "log": log[-3000:]})
             res.violation(path, step, no_input=True)
         return None
-    if not ok_p:
-        record = {"found_by": "compile-probe", "operation": "sliced", "view": "element_transformed", "rank": ">=2",
-                  "site": "array_ref.hpp:sliced_aux_:null-base-assertion", "build": "assertions-enabled"}
+    for name in sorted(PROBES):
+        ok_p, log_p = probes[name]
+        if ok_p:
+            continue
+        record, what = PROBE_RECORDS[name]
         kf = core.match_known(PID, record)
         if kf:
             res.known_finding(kf)
         else:
-            body = open(os.path.join(core.VERIF, PROBE_SRC)).read()
+            body = open(os.path.join(core.VERIF, PROBES[name][0])).read()
             path = core.write_replay(PID, body, {
-                "property": PID, "found-by": "compile-probe", "record": json.dumps(record),
-                "what": "element_transformed(f).sliced(a,b) of a rank-2 view does not compile with assertions enabled",
+                "property": PID, "found-by": "compile-probe", "record": json.dumps(record), "what": what,
                 "compiler-said": "\n".join(l for l in log_p.splitlines() if "error" in l)[:1500],
                 "replay": "g++ -std=c++17 -fsyntax-only -I<repo>/include <this file without the # lines>"})
-            res.violation(path, "compile probe: transformed views cannot be sliced (assertions on)")
-    return coq, exe, ok_p
+            res.violation(path, "compile probe: " + what)
+    return coq, exe, flags
 
 
 prepare.asan_exe = None
 
 
-def report_failures(res, exe, tptr_sliced, prog_text, obs_text, impl_text, crashes, max_report=4):
+def report_failures(res, exe, flags, prog_text, obs_text, impl_text, crashes, max_report=4):
     blocks = dict(core.split_cases(prog_text))
     failing = {}
     for cid, ml, il in core.diff_cases(obs_text, impl_text):
@@ -481,8 +638,8 @@ def report_failures(res, exe, tptr_sliced, prog_text, obs_text, impl_text, crash
         if n_reported >= max_report:
             continue
         n_reported += 1
-        small = shrink(exe, block, tptr_sliced)
-        r = case_fails(exe, small, tptr_sliced)
+        small = shrink(exe, block, flags)
+        r = case_fails(exe, small, flags)
         if not r:
             small, r = block, (found_by, ml, il)
         path = core.write_replay(PID, small, {
@@ -498,24 +655,33 @@ def run(tier, seed, replay=None):
     prep = prepare(res, "quick" if replay else tier)
     if prep is None:
         return res.finish()
-    coq, exe, tptr_sliced = prep
+    coq, exe, flags = prep
     if replay:
         block = "".join(l for l in open(replay) if not l.startswith("#"))
         if "case " not in block:
-            print("replay verdict: not a program replay (see the header of the file); compile probe result:",
-                  "compiles" if tptr_sliced else "does not compile")
+            print("replay verdict: not a program replay (see the header of the file); compile probe results:",
+                  ", ".join("%s %s" % (n, "compiles" if flags.get(n) else "does not compile") for n in sorted(flags)))
             return res.finish()
-        r = case_fails(exe, block, tptr_sliced)
+        r = case_fails(exe, block, flags)
         print("replay verdict:", r if r else "agrees (no violation)")
         if r:
             res.violation(os.path.relpath(os.path.abspath(replay), core.VERIF), str(r))
         return res.finish()
     count = 2500 if tier == "quick" else 300000
     progs, obss = [], []
+    n_corpus_skipped = 0
     for f in sorted(glob.glob(os.path.join(core.VERIF, "corpus", PID, "*.prog"))):
         block = "".join(l for l in open(f) if not l.startswith("#"))
+        mobs = model_run(block, flags)
+        # corpus cases that need something the library under test does not compile (see compile_probes) are outside
+        # the domain of this build: the model says so with an X line; they are skipped, and counted
+        outside = set(m.group(1) for m in re.finditer(r"^X (\S+) ", mobs, re.M))
+        if outside:
+            n_corpus_skipped += len(outside)
+            block = "".join(b for cid, b in core.split_cases(block) if cid not in outside)
+            mobs = "\n".join(l for l in mobs.splitlines() if len(l.split()) < 2 or l.split()[1] not in outside) + "\n"
         progs.append(block)
-        obss.append(model_run(block, tptr_sliced))
+        obss.append(mobs)
     n_corpus = sum(len(core.split_cases(p)) for p in progs)
     extra = ["--maxpre", "4", "--maxpost", "3"] if tier == "quick" else ["--maxpre", "6", "--maxpost", "5"]
     dist = {}
@@ -523,7 +689,7 @@ def run(tier, seed, replay=None):
     k = 0
     while k < count:
         n = min(chunk, count - k)
-        p, o, d = generate(seed + k, n, tptr_sliced, prefix="p%d_" % (k // chunk), extra=extra)
+        p, o, d = generate(seed + k, n, flags, prefix="p%d_" % (k // chunk), extra=extra)
         progs.append(p)
         obss.append(o)
         for key, v in d.items():
@@ -531,7 +697,7 @@ def run(tier, seed, replay=None):
         k += n
     prog_text, obs_text = "".join(progs), "".join(obss)
     impl_text, crashes = core.run_harness(exe, prog_text)
-    n_failing = report_failures(res, exe, tptr_sliced, prog_text, obs_text, impl_text, crashes)
+    n_failing = report_failures(res, exe, flags, prog_text, obs_text, impl_text, crashes)
     if prepare.asan_exe and n_failing == 0:
         # a sub-sample again under the sanitizers: same observations expected, and no sanitizer report
         sub_cases = core.split_cases(prog_text)[:30000]
@@ -539,7 +705,7 @@ def run(tier, seed, replay=None):
         sub_prog = "".join(b for _c, b in sub_cases)
         sub_obs = "\n".join(l for l in obs_text.splitlines() if len(l.split()) >= 2 and l.split()[1] in sub_ids) + "\n"
         a_text, a_crashes = core.run_harness(prepare.asan_exe, sub_prog, env={"ASAN_OPTIONS": "detect_leaks=0"}, timeout=1200)
-        n_failing += report_failures(res, prepare.asan_exe, tptr_sliced, sub_prog, sub_obs, a_text, a_crashes)
+        n_failing += report_failures(res, prepare.asan_exe, flags, sub_prog, sub_obs, a_text, a_crashes)
         res.coverage["sanitizer_cases"] = len(sub_cases)
     if tier == "thorough":
         n_vm, bad_vm, log_vm = vm_crosscheck(prog_text, obs_text)
@@ -554,36 +720,66 @@ def run(tier, seed, replay=None):
                                            "log": coq["log"][-3000:], "obligations": coq["obligations"],
                                            "discharged": coq["discharged"]})
         res.violation(path, "proof obligations no longer check", no_input=True)
+    conv_kinds, conv_overloads = conversion_tables(dist)
     cases = core.split_cases(prog_text)
     samples = [b for _c, b in cases[n_corpus:n_corpus + 600] if b.count("\nop ") >= 3 and "\nproj " in b][:3]
     res.coverage.update({
         "evaluations": len(cases),
         "distinct_nontrivial": distinct_nontrivial(prog_text),
         "rule": "random projection programs: root of struct{int a;int b;double c;} (73%%) or std::complex<double> (27%%), rank 1..4, "
-                "extents 1..6 (18%% of cases force extents 0/1); 0..%s C01 view operations drawn among those whose documented "
+                "extents 1..6 (18%% of cases force extents 0/1); 45%% of the roots are built over extensions with non-zero first "
+                "indices (each dimension's base drawn from -3..3, 70%% non-zero) and then reindexed / blocked / reindexed(i,j,..) "
+                "are in the operation alphabet; 0..%s C01/C19 view operations drawn among those whose documented "
                 "domain (dom_op of the model) holds; 1 or 2 projections (member_cast a/b/c, reinterpret_array_cast<U>() to "
                 "same-size / half-size / quarter-size U, reinterpret_array_cast<U>(n), static_array_cast, as_const, "
                 "const_array_cast, element_transformed by value / member pointer / reference-returning functor, "
-                "blas::real/imag/real_doubled), each called on a named view (35%%), through const& (20%%, where the library has "
+                "blas::real/imag/real_doubled; on sources with a non-zero index base only those the library's assertions admit, "
+                "p_dom_proj_based of the model), each called on a named view (35%%), through const& (20%%, where the library has "
                 "a const overload), on std::move(view) (25%%) or on the temporary view() (20%%); after each projection 0..%s further view operations; probes = all valid index "
-                "tuples when <= 12 else both corners + 6 random; 35%% mutate-after-view (laziness), 40%% write-through, 40%% "
-                "array construction; non-trivial = a projection and >= 2 view operations; distinct = hash of the non-probe lines"
+                "tuples when <= 12 else both corners + 6 random; iterator walks (after 60%% of the projections, 35%% of the later "
+                "operations, 0..2 at the end): leading iterators of the view or of a row, the flat elements() iterators (mutable or "
+                "const, started at begin() or end(), 3..8 tokens among ++ -- it++ it-- += -= + - it[k] *reverse_iterator(it) "
+                "*(r+k) r[k] kept inside [begin, end]), or the element pointer base() itself as a cursor over the source "
+                "elements that follow it in the root (+= -= + - p[k] and pointer difference: the whole interface of "
+                "transform_ptr); every dereference compared with the model's and with indexing; "
+                "35%% mutate-after-view (laziness), 40%% write-through; 55%% 1..3 array "
+                "conversions (kind = source form {view, const view of an array, array, array_ref, static_array, iterator pair, flat "
+                "range; from a rank-1 view also a C array, an initializer_list and a rank-0 array of its first elements} x value "
+                "category {named, const&, std::move, temporary} x how {constructor, constructor with allocator, assignment onto "
+                "the same extensions / a reshapable array / an empty array, from(), assign(first,last), static_array "
+                "assignment} x target {same type, arithmetic conversion incl. complex<double> -> complex<float>, implicit "
+                "wrapper, explicit-only wrapper, explicit-and-assignable wrapper}, drawn among those that compile): extensions "
+                "and the first 64 elements compared; non-trivial = a projection and >= 2 view operations; distinct = hash of the non-probe lines"
                 % (extra[1], extra[3]),
         "samples": samples,
         "generator_distribution": dist,
         "projection_value_category_table": value_category_table(prog_text, obs_text),
+        "conversion_kind_table": conv_kinds,
+        "conversion_overload_table": conv_overloads,
+        "iterator_walk_lines": len(re.findall(r"^I ", obs_text, re.M)),
+        "iterator_dereferences_compared": len(re.findall(r"^I .* d=", obs_text, re.M)),
         "observation_lines_compared": obs_text.count("\n"),
         "address_probes": len(re.findall(r"^[PW] .* O=-?\d", obs_text, re.M)),
         "value_only_probes": len(re.findall(r"^[PW] .* O=- ", obs_text, re.M)),
         "modified_word_lines": len(re.findall(r"^M ", obs_text, re.M)),
         "constructed_array_elements": len(re.findall(r"^c ", obs_text, re.M)),
         "corpus_cases": n_corpus,
+        "corpus_cases_outside_this_build": n_corpus_skipped,
         "disagreeing_cases": n_failing,
-        "compile_probe_transformed_sliced": "compiles" if tptr_sliced else "does not compile (assertions enabled)",
+        "compile_probes": {n: ("compiles" if flags.get(n) else "does not compile") for n in sorted(flags)},
         "not_exercised": ["as_const()/const_array_cast() on rank-1 views (members do not exist in the D=1 class at this commit)",
                           "reinterpret_array_cast on rank-0 views", "custom (non-raw, non-transform_ptr) pointer types: C11",
-                          "non-zero index bases: C19", "taked() for D > 1 (does not compile)",
-                          "post-projection sliced()/diagonal() on transform_ptr views of rank >= 2 unless the compile probe succeeds"],
+                          "member_cast, reinterpret_array_cast<U>(n) and reinterpret_array_cast<U>() (except on a const rank-1 view) "
+                          "on views with a non-zero offset in some dimension: layout_t::scale asserts offset_ == 0 (layout.hpp:987)",
+                          "diagonal() on views whose first two index bases are not 0 (known finding KF-C19-diagonal-rebased)",
+                          "taked() for D > 1 (does not compile)",
+                          "each of the following only when its compile probe succeeds (see compile_probes): post-projection "
+                          "sliced()/diagonal()/blocked() on transform_ptr views of rank >= 2; const iterators of rank-1 "
+                          "transform_ptr views; arrays of explicit-only element types constructed from a view",
+                          "conversion to the wrapper element types for ranks 4 and 5 (harness compile time)",
+                          "rank-0 VIEWS (array<T,0>::operator()() does not terminate template instantiation at this commit), so "
+                          "array.hpp:835 and :876 (from const_subarray<T,0>) are not reached; rank-0 arrays are (zctor/zalloc/zasg/zelem)",
+                          "array(std::initializer_list<OtherT>) for explicit-only element types (array.hpp:1224): hard error at this commit"],
     })
     res.assumptions = ["no 64-bit overflow in index arithmetic", "g++ 12 / libstdc++ as installed, x86-64 little endian, IEEE doubles "
                        "(the fill pattern of the root is compared word by word)",
